@@ -32,12 +32,12 @@ from sim.canon import digest  # noqa: E402
 
 BUDGETS = {
     # property: (quick runs, thorough runs)
-    "C10": (6000, 120000),
-    "C11": (3000, 60000),
-    "C12": (4000, 100000),
-    "C13": (1500, 30000),
-    "C15": (1500, 30000),
-    "C16": (1500, 30000),
+    "C10": (12000, 240000),
+    "C11": (3500, 70000),
+    "C12": (10000, 200000),
+    "C13": (6000, 120000),
+    "C15": (2500, 50000),
+    "C16": (6000, 120000),
 }
 COMPONENTS = {
     "real": [
